@@ -224,7 +224,8 @@ namespace
         cl_cvt("clause", "converting_load_store(footprint_is_lanes*sizeof(U),lane_i<->element_i)"), cl_cvtgs("clause", "converting_gather_scatter(exactly_indexed_elements)");
     Counter p_straddle_line("probe", "window_straddled_a_cache_line"), p_straddle_page("probe", "window_straddled_the_page_boundary"), p_touch_guard("probe", "window_touched_a_guard_edge"),
         p_neg_idx("probe", "gather_scatter_with_negative_index"), p_aligned_form("probe", "aligned_form_executed"), p_unplaceable("probe", "aligned_bool_window_not_flush(gap_to_guard)"),
-        p_hole_fallback("probe", "hole_placement_not_possible(1-byte_index_or_shrunk_indices)"), p_unsigned_idx("probe", "gather_scatter_with_unsigned_index_batch");
+        p_hole_fallback("probe", "hole_placement_not_possible(1-byte_index_or_shrunk_indices)"), p_unsigned_idx("probe", "gather_scatter_with_unsigned_index_batch"),
+        p_huge_idx("probe", "gather_scatter_with_top_bit_of_the_unsigned_index_set");
 
     sim::DistinctSet d_all("op_placement_tuples"), d_nontrivial("edge_or_straddle_tuples");
 
@@ -545,6 +546,37 @@ namespace
                     op.idx[0] = nb - 1, op.idx[(size_t)L - 1] = hb;
                 return;
             }
+            if (e.idx_unsigned && rng.chance(1, 3))
+            {
+                // indices with the top bit of the unsigned index type set: the array is then larger than half the index range, and a kernel
+                // that treats the index batch as signed ends up below the base pointer
+                op.idx_family = "huge-unsigned";
+                const int bits = 8 * e.elem;
+                const int64_t top = bits >= 64 ? (int64_t)1 << 40 : (int64_t)1 << (bits - 1);
+                const int64_t room = bits >= 64 ? (int64_t)1 << 40 : top - 1; // values above `top` that still fit the type
+                const int64_t span = std::min<int64_t>(std::min<int64_t>(room, (int64_t)(PAGE / eb) - 1), 4095);
+                const int64_t base = top + (room - span > 0 ? (int64_t)rng.below((uint64_t)(room - span) / 2 + 1) : 0);
+                std::vector<int64_t> offs;
+                for (int64_t k = 0; k <= span && (int)offs.size() < 4 * L; ++k)
+                    offs.push_back(span <= 4 * L ? k : (int64_t)rng.below((uint64_t)span + 1));
+                for (int i = 0; i < L; ++i)
+                    op.idx[(size_t)i] = base + offs[rng.below(offs.size())];
+                if (scatter)
+                {
+                    // distinct: walk upwards inside [base, base + span]
+                    for (int i = 0; i < L; ++i)
+                        for (int guard = 0; guard < 8192; ++guard)
+                        {
+                            bool dup = false;
+                            for (int j = 0; j < i; ++j)
+                                dup |= op.idx[(size_t)j] == op.idx[(size_t)i];
+                            if (!dup)
+                                break;
+                            op.idx[(size_t)i] = op.idx[(size_t)i] + 1 > base + span ? base : op.idx[(size_t)i] + 1;
+                        }
+                }
+                return;
+            }
             unsigned fam = (unsigned)rng.below(6);
             if (fam == 3 && e.idx_unsigned)
                 fam = 5;
@@ -707,6 +739,8 @@ namespace
                         ++p_neg_idx;
                     if (e.idx_unsigned)
                         ++p_unsigned_idx;
+                    if (op.idx_family == "huge-unsigned")
+                        ++p_huge_idx;
                     if (op.place == PL_HOLE)
                     {
                         hole = hole_valid(e, eb, op.idx);
